@@ -20,8 +20,17 @@ type objectClass struct {
 }
 
 func objectEnumerate(obj *object, all bool, each func(string) bool) {
-	for _, name := range obj.propertyOrder {
-		if all || obj.property[name].enumerable() {
+	// The callback may delete or add properties (the body of a for-in statement):
+	// walk a snapshot of the names, visit each at most once and skip a name that
+	// was deleted before it was reached (12.6.4).
+	names := make([]string, len(obj.propertyOrder))
+	copy(names, obj.propertyOrder)
+	for _, name := range names {
+		prop, exists := obj.property[name]
+		if !exists {
+			continue
+		}
+		if all || prop.enumerable() {
 			if !each(name) {
 				return
 			}
